@@ -498,6 +498,22 @@ func (w *world) tail() string {
 	return fmt.Sprintf(" | calls=%s | %s | dirty=%d | rows=%d", strings.Join(w.calls, ","), w.secLine(), w.dirty(), w.rowCount())
 }
 
+// mapStore is the caller-side persistence used with Session.Store / Session.Load.
+type mapStore struct{ m map[int]appencryption.DataRowRecord }
+
+func (s *mapStore) Store(_ context.Context, d appencryption.DataRowRecord) (interface{}, error) {
+	k := len(s.m)
+	s.m[k] = d
+	return k, nil
+}
+func (s *mapStore) Load(_ context.Context, key interface{}) (*appencryption.DataRowRecord, error) {
+	d, ok := s.m[key.(int)]
+	if !ok {
+		return nil, errors.New("no such record")
+	}
+	return &d, nil
+}
+
 // mutate returns a structurally / bitwise modified copy of a record (C07).
 func (w *world) mutate(d *appencryption.DataRowRecord, mut string) appencryption.DataRowRecord {
 	cp := appencryption.DataRowRecord{Data: append([]byte(nil), d.Data...)}
@@ -631,7 +647,19 @@ func (w *world) exec(line string) {
 			pay := atoi(f[2])
 			data := payloadBytes(pay)
 			orig := append([]byte(nil), data...)
-			d, err := w.sess[atoi(f[1])].Encrypt(ctx, data)
+			var d *appencryption.DataRowRecord
+			var err error
+			if kv["api"] == "store" {
+				ms := &mapStore{m: map[int]appencryption.DataRowRecord{}}
+				var key interface{}
+				key, err = w.sess[atoi(f[1])].Store(ctx, data, ms)
+				if err == nil {
+					rec := ms.m[key.(int)]
+					d = &rec
+				}
+			} else {
+				d, err = w.sess[atoi(f[1])].Encrypt(ctx, data)
+			}
 			if !bytes.Equal(orig, data) {
 				obs = "res=modified-input"
 			} else if err != nil {
@@ -655,7 +683,14 @@ func (w *world) exec(line string) {
 				kb = append([]byte(nil), d.Key.EncryptedKey...)
 			}
 			db := append([]byte(nil), d.Data...)
-			p, err := w.sess[atoi(f[1])].Decrypt(ctx, d)
+			var p []byte
+			var err error
+			if kv["api"] == "load" {
+				ms := &mapStore{m: map[int]appencryption.DataRowRecord{0: d}}
+				p, err = w.sess[atoi(f[1])].Load(ctx, 0, ms)
+			} else {
+				p, err = w.sess[atoi(f[1])].Decrypt(ctx, d)
+			}
 			_ = before
 			switch {
 			case !bytes.Equal(db, d.Data) || (d.Key != nil && !bytes.Equal(kb, d.Key.EncryptedKey)):
@@ -816,7 +851,11 @@ func (g *gen) randomCase(length int) {
 		f := g.sfac[s]
 		switch r.Pick(34, 30, 12, 6, 5, 4, 3, 3, 3) {
 		case 0:
-			g.line("enc %d %d flt=%s", s, r.Intn(1000), g.faults())
+			if r.Intn(5) == 0 {
+				g.line("enc %d %d flt=%s api=store", s, r.Intn(1000), g.faults())
+			} else {
+				g.line("enc %d %d flt=%s", s, r.Intn(1000), g.faults())
+			}
 		case 1:
 			if len(g.w.drrs) == 0 {
 				g.line("enc %d %d flt=-", s, r.Intn(1000))
@@ -831,7 +870,11 @@ func (g *gen) randomCase(length int) {
 			if r.Intn(4) == 0 {
 				mut = g.mutation(n)
 			}
-			g.line("dec %d %d flt=%s mut=%s", s, n, g.faults(), mut)
+			if r.Intn(5) == 0 {
+				g.line("dec %d %d flt=%s mut=%s api=load", s, n, g.faults(), mut)
+			} else {
+				g.line("dec %d %d flt=%s mut=%s", s, n, g.faults(), mut)
+			}
 		case 2:
 			g.line("adv %d", g.advance(f))
 		case 3:
